@@ -4,7 +4,7 @@ tier=${1:-quick}; shift
 ids=${@:-C01 C02 C03 C04 C05 C06 C07 C08 C09 C10 C11 C12 C13 C14 C15 C16 C17 C18 C19 C20}
 for id in $ids; do
   s=$(date +%s)
-  out=$(cd /verif && /venv/bin/python -m mc.run $id --tier $tier 2>&1 | grep -v conda)
+  out=$(cd "$(dirname "$0")/.." && /venv/bin/python -m mc.run $id --tier $tier 2>&1 | grep -v conda)
   rc=$?
   e=$(date +%s)
   echo "== $id rc=$(echo "$out" | grep -c '^VIOLATION') t=$((e-s))s :: $(echo "$out" | grep -E '^\[C' | cut -c1-200)"
